@@ -92,6 +92,11 @@ def step_state(state, op):
         collapsed = True
     elif op == "uncollapse_unary_chains":
         collapsed = False
+        # the re-created unary nodes are copies of the node below them, flags included: the
+        # copied head / split flags do not describe the new nodes (a unary node's only child
+        # would have to be its head) - mark again before relying on them
+        heads = False
+        split = False
     return (heads, split, rattach, collapsed, topnodes)
 
 
